@@ -28,6 +28,7 @@ struct FuzzyCfg
     std::vector<R> me, mec; // flattened parameter tables
     std::vector<R> kp, ki, kd; // n x n consequents
     bool use_kp = true, use_ki = true, use_kd = true;
+    bool shared = false;        // one table object registered for both inputs (me == mec)
 };
 
 static inline unsigned mf_npar(unsigned type)
@@ -139,6 +140,7 @@ static inline void gen_fuzzy(Tape &t, Ctx &cx, FuzzyCfg &f, bool zero_rules)
     gen_partition(t, f.n, f.Lc, f.sec);
     // a table with fewer sets than the order, closed by the A_MF_NUL entry (the walk over the table stops there): the last
     // set(s) of a partition are left out - spare values of the operator byte
+    if (short_tab == 7) { f.sec = f.se; f.Lc = f.L; f.shared = true; } // the same table for e and ec - handed over as ONE array
     if (short_tab == 8 && f.se.size() > 1) { f.se.pop_back(); if (f.se.size() > 2) { f.se.pop_back(); } }
     if (short_tab == 9 && f.sec.size() > 1) { f.sec.pop_back(); }
     flatten(f.se, f.me);
